@@ -65,6 +65,20 @@ class Namespace(typing.Generic[T]):
         """
         raise NotImplementedError()  # pragma: no cover
 
+    def get_load_assigned(self, name: str) -> expr:
+        """
+        Use this to load a name from where `get_assign` has just stored it
+        """
+        raise NotImplementedError()  # pragma: no cover
+
+
+def _globals_item(name: str) -> expr:
+    return Subscript(
+        value=Call(func=Name(id="globals", ctx=Load()), args=[], keywords=[]),
+        slice=Constant(value=name),
+        ctx=Load(),
+    )
+
 
 class NamespaceGlobal(Namespace[symtable.SymbolTable]):
     use_itertools: bool = False
@@ -82,6 +96,9 @@ class NamespaceGlobal(Namespace[symtable.SymbolTable]):
         return NamedExpr(target=Name(id=name, ctx=Store()), value=value_expr)
 
     def get_load_name(self, name: str) -> Name:
+        return Name(id=name, ctx=Load())
+
+    def get_load_assigned(self, name: str) -> Name:
         return Name(id=name, ctx=Load())
 
 
@@ -218,6 +235,25 @@ class NamespaceFunction(Namespace[symtable.Function]):
         else:  # globals or locals except free
             return Name(id=name, ctx=Load())
 
+    def get_load_assigned(self, name: str) -> expr:
+        if self.symt.lookup(name).is_declared_global():
+            return _globals_item(name)
+        elif name in self.outer_nonlocal_map:
+            outer = self.outer_nonlocal_map[name]
+            return Subscript(
+                value=outer.nonlocal_dict_expr,
+                slice=Constant(value=name),
+                ctx=Load(),
+            )
+        elif name in self.inner_nonlocal_names:
+            return Subscript(
+                value=self.nonlocal_dict_expr,
+                slice=Constant(value=name),
+                ctx=Load(),
+            )
+        else:
+            return Name(id=name, ctx=Load())
+
 
 class NamespaceClass(Namespace[symtable.Class]):
     # NamespaceClass doesn't have inner_nonlocal_names
@@ -322,6 +358,23 @@ class NamespaceClass(Namespace[symtable.Class]):
             return Name(id=name, ctx=Load())
         else:
             # a class member
+            return Subscript(
+                value=self.class_member_dict_expr,
+                slice=Constant(value=name),
+                ctx=Load(),
+            )
+
+    def get_load_assigned(self, name: str) -> expr:
+        if self.symt.lookup(name).is_declared_global():
+            return _globals_item(name)
+        elif name in self.outer_nonlocal_map:
+            outer = self.outer_nonlocal_map[name]
+            return Subscript(
+                value=outer.nonlocal_dict_expr,
+                slice=Constant(value=name),
+                ctx=Load(),
+            )
+        else:
             return Subscript(
                 value=self.class_member_dict_expr,
                 slice=Constant(value=name),
